@@ -240,3 +240,14 @@ Example schedule_impl_static_arena_rejected :
   glue_ok (fun b => match b with BTbb => [SUnknown; SEnqueue] | _ => sched_impl_ref b end) impl_ctor_ref impl_wait_ref = false
   /\ glue_ok sched_impl_ref impl_ctor_ref impl_wait_ref = true.
 Proof. split; reflexivity. Qed.
+
+(* "a stored piece goes to exactly ONE reader" (hypothesis pipe_contract of schedule_once_internal /
+   schedule_internal_burst_exactly_once) requires every reader-side claim of a slot to be an atomic compare-and-swap:
+   with one item queued, owner and thief race for the same slot *)
+Theorem pipe_single_claim_needs_cas : forall owner thief,
+  double_claim_possible owner thief = negb (match owner, thief with ClaimCAS, ClaimCAS => true | _, _ => false end).
+Proof. exact double_claim_iff. Qed.
+Print Assumptions pipe_single_claim_needs_cas.
+(* check-then-store on the owner's side: both claimants succeed — the task body runs twice *)
+Example pipe_check_then_store_refuted : double_claim_possible ClaimCheckThenStore ClaimCAS = true.
+Proof. exact (proj1 (proj2 double_claim_table)). Qed.
